@@ -1121,13 +1121,22 @@ func overBudget(r *lib.Run) bool {
 	return false
 }
 
+// gcTuning: tiny live heap, very high allocation rate (every BuildGraph is 512 maps, every FindRevdeps a 1000-slot map):
+// collect by footprint instead of by growth (measured: about 40% less CPU than the default or a ballast).
+func gcTuning() {
+	if os.Getenv("VERIF_NO_GC_TUNING") != "" {
+		return
+	}
+	debug.SetGCPercent(-1)
+	debug.SetMemoryLimit(512 << 20)
+}
+
 func main() {
 	r := lib.Start("C23", "exploration")
 	lib.Quiet()
 	initCapture()
 	// Tiny live heap, huge allocation rate (every FindRevdeps allocates a 1000-slot map): collect by footprint, not by growth.
-	debug.SetGCPercent(-1)
-	debug.SetMemoryLimit(512 << 20) // tiny live heap, huge allocation rate (every FindRevdeps allocates a 1000-slot map)
+	gcTuning()
 	if pf := os.Getenv("VERIF_CPUPROFILE"); pf != "" {
 		f, _ := os.Create(pf)
 		pprof.StartCPUProfile(f)
